@@ -107,7 +107,9 @@ class Run:
             n = self.known_hit.get(key, 0)
             self.known_hit[key] = n + 1
             return False
-        if len(self.violations) >= self.max_report:
+        self._perkey = getattr(self, "_perkey", {})
+        self._perkey[key] = self._perkey.get(key, 0) + 1
+        if len(self.violations) >= self.max_report or self._perkey[key] > 2:
             self.violations.append((key, what, None))
             return True
         os.makedirs(os.path.join(REPLAY_DIR, self.pid), exist_ok=True)
